@@ -69,7 +69,7 @@ def main():
             print('| %s | %s | %s | %s |' % (m['kind'], m['name'], ', '.join(m['props']), m.get('rule') or '(any)'))
         return 0
     bad = 0
-    with concurrent.futures.ThreadPoolExecutor(max_workers=4) as ex:
+    with concurrent.futures.ThreadPoolExecutor(max_workers=int(os.environ.get("VERIF_JOBS", "4"))) as ex:
         for m, ok, out in ex.map(run_one, ms):
             print('%-8s %-44s %s  %s' % (m['kind'], m['name'], 'ok  ' if ok else 'FAIL', ' '.join('%s:%d' % (p, rc) for p, rc, g, o in out)))
             if not ok or verbose:
